@@ -112,7 +112,7 @@ def gen_cte_multi_case(rnd):
     doc = gen_doc(rnd)
     base_wh = rnd.choice([TRUE, ["cmp", "gt", col("n0"), num(1)], ["cmp", "ne", col("s0"), ["str", "b"]]])
     inner = select([item(col("n0")), item(col("s0"))], table("t"), wh=base_wh)
-    shape = rnd.choice(["nested-with", "dual-union", "self-join", "union-root", "twice-in-chain", "subq-twice"])
+    shape = rnd.choice(["nested-with", "dual-union", "self-join", "union-root", "union-chain", "twice-in-chain", "subq-twice"])
     staged = [("a", inner)]
     if shape == "nested-with":
         body = select([item(col("n0")), item(col("s0"))], table("z"), ctes=[["z", inner]])
@@ -136,6 +136,18 @@ def gen_cte_multi_case(rnd):
                  select([item(col("n0"))], table("a"), wh=["cmp", "gt", col("n0"), num(2)]), rnd.random() < 0.5, [], None, None, {}]
         c = mk_case(doc, outer, mode="seq", tag="cte-multi:" + shape)
         return c
+    elif shape == "union-chain":
+        # WITH in front of a chain of 3-4 selects: the parser hangs the WITH on the outermost union only, every
+        # select of the chain must still see the CTEs
+        def br():
+            return select([item(col("n0"))], table(rnd.choice(["a", "a", "b"])),
+                          wh=rnd.choice([TRUE, ["cmp", "gt", col("n0"), num(2)], ["cmp", "le", col("n0"), num(2)]]))
+        qb = select([item(col("n0"))], table("a"), wh=["cmp", "ne", col("n0"), num(3)])
+        chain = ["union", [], br(), br(), rnd.random() < 0.5, [], None, None, {}]
+        for _ in range(rnd.randint(1, 2)):
+            chain = ["union", [], chain, br(), rnd.random() < 0.5, [], None, None, {}]
+        chain[1] = [["a", inner], ["b", qb]]
+        return mk_case(doc, chain, mode="seq", tag="cte-multi:" + shape)
     elif shape == "twice-in-chain":
         qb = select([item(col("n0"))], table("a"), wh=["cmp", "in", col("n0"), ["subq", select([item(col("n0"))], ["table", ["<-", "a"], "", "<-a", {"bt": True}])]])
         outer = select([item(col("n0"))], table("b"), ctes=[["a", inner], ["b", qb]],
@@ -190,8 +202,14 @@ def gen_subq_case(rnd):
         ])
         q = select([item(col("n0")), item(["subq", inner], "sub")], table("t"))
         return mk_case(doc, q, mode="seq", tag="subq-dual")
+    # every `<-` is exactly one step back: from an element of the row's nested array to the row, from the row
+    # to the document — whether the sub-query sits in the select list, right of IN, or under EXISTS
+    back1 = col("<-", "n0", style=1)
+    back2 = col("<-", "<-", "lim", style=1)
     if k < 0.3:
-        sub = select([item(col("x"))], table("items"), wh=rnd.choice([TRUE, ["cmp", "gt", col("x"), num(1)]]))
+        sub = select([item(col("x"))], table("items"),
+                     wh=rnd.choice([TRUE, ["cmp", "gt", col("x"), num(1)], ["cmp", "ge", col("x"), back1],
+                                    ["cmp", "gt", col("x"), back2]]))
         q = select([item(col("n0")), item(["subq", sub], "sub")], table("t"))
         tag = "subq-row"
     elif k < 0.5:
@@ -199,7 +217,8 @@ def gen_subq_case(rnd):
         q = select([item(col("n0")), item(["subq", sub], "sub")], table("t"))
         tag = "subq-root"
     elif k < 0.75:
-        sub = select([item(col("x"))], table("items"))
+        sub = select([item(col("x"))], table("items"),
+                     wh=rnd.choice([TRUE, TRUE, ["cmp", "ne", col("x"), back1], ["cmp", "ge", col("x"), back2]]))
         q = select([item(col("n0")), item(col("s0"))], table("t"),
                    wh=["cmp", "in", col(rnd.choice(["n0", "n1"])), ["subq", sub]])
         tag = "in-subq"
@@ -209,6 +228,9 @@ def gen_subq_case(rnd):
             ["cmp", "eq", col("x"), col("n0")],
             ["and", ["cmp", "ge", col("x"), num(2)], ["cmp", "eq", col("y"), ["str", "p"]]],
             ["cmp", "lt", col("x"), num(rnd.choice([1, 2, 3]))],
+            ["cmp", "gt", col("x"), back1],
+            ["cmp", "gt", col("x"), back2],
+            ["and", ["cmp", "ge", col("x"), back2], ["cmp", "ne", col("x"), back1]],
         ])
         sub = select([["star"]], table("items"), wh=inner_wh)
         p = ["exists", sub]
